@@ -187,6 +187,10 @@ class FiddleFlag(flags.MultiFlag):
     # discarded.
     self._remaining_directives = []
     self.present = 0
+    # Forget the base config of the discarded command line as well: the next
+    # command line starts from scratch.
+    self.first_command = None
+    self._initial_config_expression = None
 
   def _parse_config(self, command: str, expression: str) -> None:
     if self._initial_config_expression:
